@@ -54,6 +54,18 @@ func runC14(t *simrt.Tape, o Opts) Outcome {
 		pol := world.GenPolicy(t, world.GenOpts{AllowTinyLFU: allowTinyLFU})
 		// a quarter of the races are between hosts whose clocks disagree by less than, or a few times,
 		// the creation-stamp precision (racers then collide on neighbouring stamps as well as equal ones)
+		// slow metastore / KMS calls: the clock may cross a creation-stamp boundary while a racer's call
+		// is in flight
+		if t.Choose(4, "slow-calls") == 1 {
+			w.Faults.Random = true
+			w.Faults.Kinds["latency"] = true
+			w.Faults.RateNum, w.Faults.RateDen = 1, []int{4, 10}[t.Choose(2, "slow-calls.rate")]
+			prec := pol.Precision
+			if prec <= 0 {
+				prec = time.Second
+			}
+			w.LatencyMenu = []time.Duration{time.Millisecond, prec / 2, prec, prec + time.Second}
+		}
 		if t.Choose(4, "clock-skew") == 1 {
 			w.ClockSkews = []time.Duration{0, 300 * time.Millisecond, -300 * time.Millisecond, pol.Precision, -pol.Precision, 3 * pol.Precision, -3 * pol.Precision}
 		}
